@@ -950,6 +950,9 @@ def filter_copy(P, rep, rule="FILTER"):
         # the rule is written over these locals; if they were renamed it cannot judge (never a violation)
         rep.unknown(rule, "filter_vtu_mesh: anchor locals %s not found (renamed?)" % sorted(missing))
         return
+    # the running highest tag of a cell starts below every valid tag, so that the `no feature` guard can fire
+    if monotone_guards(P, rep, F, rule, "filter_vtu_mesh") == 0:
+        rep.unknown(rule, "filter_vtu_mesh: no guard on a running maximum found (the highest tag of a cell and its `< 0` test)")
     problems = []
     # (0) both per-cell vertex loops visit all vertices of the cell: idx in [cellidx*n, (cellidx+1)*n), n = (dim == 3) ? 8 : 4
     NV_FORMS = ("((dim==3)?8:4)", "((dim==2)?4:8)", "((3==dim)?8:4)", "((2==dim)?4:8)")
@@ -1816,3 +1819,143 @@ def number_parsers(P, rep, rule="LINT.number-parsers"):
             rep.violation(rule, "%s is not `stream >> value` with a trailing-character test and a release-active throw" % nm, G.loc, G.qn, "",
                           "malformed numeric tokens are not reported", key="%s|%s|shape" % (rule, nm), witness="token '12abc'")
     rep.ok(rule, "%d functions scanned for lenient number parsers" % n)
+
+
+def monotone_guards(P, rep, F, rule, what):
+    """a local that starts at a literal v0 and is only ever raised (x = max(x, e)) is never below v0; a guard `x < c` with c <= v0
+    can never fire (and symmetrically for min / >): the stated belief `x may be below c` contradicts the code"""
+    n = 0
+    for v in F.walk(F.body):
+        if v.get("k") != "VarDecl" or not v.get("c") or not norm.is_arith(v.get("t", "")):
+            continue
+        i0 = norm.strip_casts(v["c"][0])
+        sign = 1
+        if i0 is not None and i0.get("k") == "UnaryOperator" and i0.get("op") == "-":
+            sign, i0 = -1, norm.strip_casts(i0["c"][0])
+        if i0 is None or i0.get("k") not in ("IntegerLiteral", "FloatingLiteral"):
+            continue
+        v0 = sign * float(i0["v"])
+        key = v["r"]
+        kinds = set()
+        okv = True
+        for y in F.walk(F.body):
+            if y.get("k") in ("BinaryOperator", "CompoundAssignOperator") and y.get("op") in norm.ASSIGN_OPS and astq.is_ref_to(y["c"][0], key):
+                r0 = norm.strip_casts(y["c"][1])
+                if y.get("op") == "=" and r0 is not None and r0.get("k") == "CallExpr" and P.d(r0.get("callee")).get("qn") in ("std::max", "std::min") and \
+                        any(astq.is_ref_to(a_, key) for a_ in r0["c"][1:]):
+                    kinds.add(P.d(r0["callee"])["qn"])
+                else:
+                    okv = False
+            elif y.get("k") == "UnaryOperator" and y.get("op") in ("++", "--", "&") and astq.is_ref_to(y["c"][0], key):
+                okv = False
+        if not okv or len(kinds) != 1:
+            continue
+        raised = kinds == {"std::max"}
+        for c in F.walk(F.body):
+            if c.get("k") == "BinaryOperator" and c.get("op") in ("<", "<=", ">", ">="):
+                l, r = norm.strip_casts(c["c"][0]), norm.strip_casts(c["c"][1])
+                op = c["op"]
+                if astq.is_ref_to(r, key):
+                    l, r, op = r, l, {"<": ">", "<=": ">=", ">": "<", ">=": "<="}[op]
+                if not astq.is_ref_to(l, key):
+                    continue
+                sg = 1
+                if r is not None and r.get("k") == "UnaryOperator" and r.get("op") == "-":
+                    sg, r = -1, norm.strip_casts(r["c"][0])
+                if r is None or r.get("k") not in ("IntegerLiteral", "FloatingLiteral"):
+                    continue
+                cval = sg * float(r["v"])
+                n += 1
+                dead = (raised and ((op == "<" and cval <= v0) or (op == "<=" and cval < v0))) or \
+                       (not raised and ((op == ">" and cval >= v0) or (op == ">=" and cval > v0)))
+                if dead:
+                    rep.violation(rule, "%s: `%s` can never hold: %s starts at %g and is only %s" % (what, norm.render(P, c)[:40], v.get("n"), v0, "raised" if raised else "lowered"),
+                                  F.nloc(c), F.qn, norm.render(P, c)[:100], "the case the guard is written for is treated like a regular value",
+                                  key="%s|guard|%s" % (rule, v.get("n")), witness="a cell none of whose nodes lies in a feature (tag -1)")
+                else:
+                    rep.ok(rule, "%s: the guard `%s` can fire (%s starts at %g)" % (what, norm.render(P, c)[:40], v.get("n"), v0), F.nloc(c), F.qn)
+    return n
+
+
+def zlib_blocks(P, rep, rule="VTU.zlib-blocks"):
+    """the block structure of vtu11's compressed appended data"""
+    rep.rule(rule, "vtu11::detail::zlibCompressData splits n >= 1 bytes into ceil(n/b) blocks: numberOfBlocks - 1 full blocks of b bytes and a last "
+                   "block of `remainder` bytes with 1 <= remainder <= b and (numberOfBlocks - 1)*b + remainder = n; the two extracted integer "
+                   "expressions are evaluated with C++ integer division over all residues n mod b for b = 2, 3, 7 and at the boundaries of "
+                   "b = 32768 (the header of a compressed DataArray announces these numbers to the reader)")
+    fs = [F for F in P.funcs.values() if F.qn.endswith("zlibCompressData") and F.body is not None]
+    if not fs:
+        rep.unknown(rule, "no instantiation of vtu11::detail::zlibCompressData in gwb-grid's translation unit")
+        return
+    n_ok = 0
+    for F in fs[:1]:
+        decl = {}
+        for v in F.walk(F.body):
+            if v.get("k") == "VarDecl" and v.get("n") in ("numberOfBytes", "numberOfBlocks", "remainder", "blocksize") and v.get("c"):
+                decl[v["n"]] = v
+        if not {"numberOfBytes", "numberOfBlocks", "remainder", "blocksize"} <= set(decl):
+            rep.unknown(rule, "zlibCompressData: the locals numberOfBytes / numberOfBlocks / remainder / blocksize were not found (renamed?)")
+            return
+
+        def ev(e, env):
+            e = sc(e)
+            k = e.get("k")
+            if k == "IntegerLiteral":
+                return int(e["v"])
+            if k == "DeclRefExpr":
+                if e.get("n") in env:
+                    return env[e["n"]]
+                raise KeyError(e.get("n"))
+            if k == "ParenExpr":
+                return ev(e["c"][0], env)
+            if k == "BinaryOperator" and e.get("op") in ("+", "-", "*", "/"):
+                a, b = ev(e["c"][0], env), ev(e["c"][1], env)
+                if e["op"] == "/":
+                    if b == 0:
+                        raise ZeroDivisionError
+                    q = abs(a) // abs(b)
+                    return q if (a >= 0) == (b >= 0) else -q
+                return {"+": a + b, "-": a - b, "*": a * b}[e["op"]]
+            raise KeyError(k)
+        bad = None
+        cases = 0
+        for b in (2, 3, 7, 32768):
+            residues = range(b) if b < 10 else (0, 1, 2, b - 2, b - 1)
+            for q in (0, 1, 2, 5):
+                for r in residues:
+                    n_ = q * b + r
+                    if n_ < 1:
+                        continue
+                    cases += 1
+                    try:
+                        nb = ev(decl["numberOfBlocks"]["c"][0], {"numberOfBytes": n_, "blocksize": b})
+                        rem = ev(decl["remainder"]["c"][0], {"numberOfBytes": n_, "blocksize": b, "numberOfBlocks": nb})
+                    except (KeyError, ZeroDivisionError) as e:
+                        rep.unknown(rule, "zlibCompressData: block count / remainder are not integer expressions of numberOfBytes and blocksize (%s)" % e)
+                        return
+                    want = -(-n_ // b)
+                    if nb != want or not (1 <= rem <= b) or (nb - 1) * b + rem != n_:
+                        bad = (n_, b, nb, rem, want)
+                        break
+                if bad:
+                    break
+            if bad:
+                break
+        # the loop writes numberOfBlocks - 1 full blocks
+        loops = [l for l in F.walk(F.body) if l.get("k") == "ForStmt"]
+        okl = False
+        for l in loops:
+            c = sc(l["c"][1])
+            if c is not None and c.get("op") == "<" and norm.render(P, c["c"][1], nocast=True).replace(" ", "") in ("(numberOfBlocks-1)",):
+                okl = True
+        if bad:
+            rep.violation(rule, "zlibCompressData: %d bytes with block size %d give %d blocks and a last block of %d bytes (expected %d blocks, last block 1..%d)" % (
+                bad[0], bad[1], bad[2], bad[3], bad[4], bad[1]), F.nloc(decl["numberOfBlocks"]), F.qn, norm.render(P, decl["numberOfBlocks"]["c"][0])[:100],
+                "the header announces a block that does not exist (or an empty one): readers misplace every later array", key=rule,
+                witness="RawBinaryCompressed output of a grid whose node arrays have a byte size that is a multiple of 32768")
+        elif not okl:
+            rep.unknown(rule, "zlibCompressData: the loop over the full blocks (iBlock < numberOfBlocks - 1) was not found")
+        else:
+            n_ok += 1
+            rep.ok(rule, "zlibCompressData: ceil(n/b) blocks, last block 1..b bytes (%d residue cases)" % cases, F.loc, F.qn)
+    rep.floor(rule, len(fs[:1]), 1, "instantiations of zlibCompressData")
